@@ -55,6 +55,15 @@ def role_of_call(eng, callterm, m):
     return None
 
 
+def _is_raiser(eng, callee):
+    """a checker that answers by raising (checkformat_*): it has no path returning a bool constant"""
+    hit = eng.callee_index.get(callee)
+    if hit is None:
+        return False
+    sm = eng.summary(hit[0], hit[1])
+    return not any(rk in (True, False) for rk in sm.groups)
+
+
 def cube_of(eng, m, bp):
     """atom valuation literals established on one loop-body path + unexplained decision literals"""
     cube, extra = {}, []
@@ -74,10 +83,28 @@ def cube_of(eng, m, bp):
             cube["G"] = (k == "eq") == f[2][2]
     # raisers used as filters (notok of a grammar checker caught by a handler)
     for f in bp.facts:
-        if f[0] == "notok":
+        if f[0] in ("notok", "ok") and is_call(f[1]) and f[1][1].startswith("repo:") and _is_raiser(eng, f[1][1]):
             r = role_of_call(eng, f[1], m)
             if r and r not in cube:
-                cube[r] = False
+                cube[r] = f[0] == "ok"
+    # tests written out in the loop itself (isinstance / key presence / hex tests on the entry): what
+    # they establish on this path may refute the entry grammars
+    from .kinds import gpg_refuted, rawgpg_refuted
+
+    fs = set(bp.facts)
+    from .c15 import predicate_exact
+
+    for f in bp.facts:
+        # `not is_hex_signature(entry["signature"])`: a predicate that decides exactly the 128-hex
+        # grammar said no - neither entry grammar can hold
+        if f[0] == "ret" and f[2] is False and is_call(f[1]) and f[1][1].startswith("repo:") and f[1][2] == (Sub(m.entry, C("signature")),):
+            if predicate_exact(eng, f[1][1][5:].split("[")[0].split("<")[0], "hex", 128)[0]:
+                cube.setdefault("Ps", False)
+                cube.setdefault("Pg", False)
+    if "Ps" not in cube and rawgpg_refuted(fs, m.entry):
+        cube["Ps"] = False
+    if "Pg" not in cube and gpg_refuted(fs, m.entry):
+        cube["Pg"] = False
     for gpg, atom in ((True, "Vg"), (False, "Vr")):
         hits, near = m._verify_events(bp, gpg=gpg)
         failed = [ev for ev in bp.events if ev[0] == "call" and ev[2] == "method:verify" and ev[5] == ("raise", "InvalidSignature")]
@@ -140,6 +167,14 @@ def run(ctx, deps=True):
     for bp in m.body:
         if bp.kind == "raise":
             continue
+        if bp.kind == "break" and not bp.stores and m.G is not None:
+            # `if len(counted) >= threshold: break`: an early exit once the accept condition holds -
+            # the entries not looked at can only add to a count that already suffices
+            lenG = CallT("builtin:len", [m.G])
+            acc = frozenset({(lenG, -1), (m.threshold, 1)})
+            if any(co == acc and c <= 0 for _f, (co, c) in le_facts(bp.facts)):
+                ctx.count("R2.early_accept_exits")
+                continue
         cube, extra = cube_of(eng, m, bp)
         cubes.append((bp, cube))
         out = bp.outcome
@@ -180,7 +215,10 @@ def run(ctx, deps=True):
         matching = [(bp, c) for bp, c in cubes if all(v[a] == b for a, b in c.items())]
         outs = {"count" if bp.outcome == "count+return" else bp.outcome for bp, _c in matching}
         rows += 1
-        ok = outs == {want}
+        # completeness is this property's concern: where the specification says "count" the entry must
+        # count; where it says "skip" the entry may be skipped or counted (counting more than the
+        # specification is soundness - C01's rule set, re-evaluated through C03/C05), but the loop goes on
+        ok = outs == {want} if want == "count" else (bool(outs) and outs <= {"skip", "count"})
         if not ok:
             bad_rows += 1
             if bad_rows <= 4:
@@ -295,9 +333,14 @@ def _collect_prints(ev, seen, facts, eng):
         # pieces judged unsafe where the print stands (possibly inside a helper that prints its
         # arguments) are judged again with what this path of the analysed function knows
         pc = _PrintCtx(eng, facts)
-        for lf in ev[3]:
-            if not ascii_safe_leaf(pc, lf):
-                cur[1].add(show(lf))
+        from sa.terms import string_leaves
+
+        for lf0 in ev[3]:
+            # (a helper that prints its argument: after substitution the leaf is the caller's whole
+            # string-building expression - judged piece by piece)
+            for lf in string_leaves(lf0):
+                if not ascii_safe_leaf(pc, lf):
+                    cur[1].add(show(lf))
     elif ev[0] == "loop":
         for bp in ev[4]:
             for ev2, _d in flatten_events(bp[2]):
